@@ -21,6 +21,8 @@ type authScriptC struct {
 	ID      int                   `json:"id"`
 	Mode    string                `json:"mode"`
 	Source  string                `json:"source"`
+	Kind    string                `json:"kind"`
+	ActHost string                `json:"acthost"`
 	Answers map[string][][]string `json:"answers"`
 	// predictions of the implementation model (drift layer only)
 	Reqs   [][]string `json:"reqs,omitempty"`
@@ -136,7 +138,7 @@ func init() {
 					}
 				}
 			}
-			c.Report(core.Violation{Assertion: assertion, Fields: map[string]string{"mode": byID[rid].Mode, "source": byID[rid].Source},
+			c.Report(core.Violation{Assertion: assertion, Fields: map[string]string{"mode": byID[rid].Mode, "source": byID[rid].Source, "kind": byID[rid].Kind},
 				Detail: map[string]interface{}{"script": byID[rid], "rejected_request": ev, "trace_line": vr.Depth, "redirect_answers_in_script": redirects,
 					"note": "the acceptor HttpAuthTrace has no action matching this request in the state reached by the run's earlier requests"}})
 		}
@@ -157,7 +159,7 @@ func init() {
 		for i := 0; i < len(scripts); i += len(scripts)/4 + 1 {
 			c.Sample(scripts[i])
 		}
-		c.Assume("identities: https 127.0.0.1:p1 (api), https 127.0.0.1:p2, https localhost:p3, http 127.0.0.1:p4; TLS verification disabled by configuration; credentials come from a recording helper that names the host it was asked for, or from the URL's userinfo; only batch API requests are issued (storage/verify/lock requests share the same client path); redirect status 307 only")
+		c.Assume("identities: https 127.0.0.1:p1 (api), https 127.0.0.1:p2, https localhost:p3, http 127.0.0.1:p4; TLS verification disabled by configuration; credentials come from a recording helper that names the host it was asked for, or from the URL's userinfo; batch API requests, and storage downloads through a batch action that carries an Authorization header (spelled Authorization / authorization / AUTHORIZATION) for one of three identities; verify and lock requests are not issued; redirect status 307 only")
 	}
 }
 
